@@ -177,11 +177,15 @@ PROFILES["C05"] = Profile(
     assumptions=[
         "node identity = Python object identity (forced by tests/test_base.py::test_add_edge)",
         "'first' unused index = lowest axis number",
-        "nodes with free (collection) indices are excluded: the statement does not define them",
+        "nodes with ONE leading collection axis of a common length are included under the elementwise reading (the "
+        "free indices of all nodes are aligned; result = stack of the per-element diagrams, collection axis first); "
+        "other free-index patterns are excluded: the statement does not define them",
         "a diagram on which add_edge/add_node raised or was interrupted is retired (builder failure atomicity is not "
         "claimed by any property)",
-        "all-int8 (epsilon-only) diagrams whose L1 bound exceeds 127 are not compared (dtype overflow is an input "
-        "matter)",
+        "diagrams whose nodes ALL have a narrow dtype (int8: epsilon, delta(n,n), user int8; bool) are not compared when "
+        "their L1 bound exceeds what the dtype holds (numpy keeps the narrow dtype; rank-0 nodes do not widen it because "
+        "numpy 1.x promotes 0-d operands by value) - dtype overflow is an input matter; mixed narrow/wide diagrams ARE "
+        "compared (numpy must promote before multiplying)",
         "sampling of programs x schedules x faults; only the epsilon/delta tables are exhaustive",
     ],
     evidence_extra=c05_evidence_extra, pre=c05_pre,
